@@ -55,6 +55,11 @@ impl AlcCodec for AlcRS28 {
 
         let maximum_source_block_length = fti[10];
         let num_encoding_symbols = fti[11];
+        if num_encoding_symbols < maximum_source_block_length {
+            return Err(FluteError::new(
+                "Max number of encoding symbols is smaller than the source block length",
+            ));
+        }
 
         let oti = oti::Oti {
             fec_encoding_id: oti::FECEncodingID::ReedSolomonGF28,
